@@ -13,7 +13,7 @@ import (
 )
 
 func init() {
-	register("C14", "Decides: (R1) in the ExtendedDaemonSet reconciler the accumulator fields Ready/Current/Available are each written by exactly one `acc.X += item.Status.X` that executes for every item of the listed replica sets (before any filtering); Status.Current/Ready/Available are stored only from the like-named accumulator field; Status.Desired is stored only as <rs>.Status.Desired of the replica set whose name is stored to Status.ActiveReplicaSet, or incremented by <rs>.Status.Desired of the replica set whose name is stored to Status.Canary.ReplicaSet, on exactly the paths that store that name and after the base store; Status.UpToDate is stored only as <rs>.Status.Current of one of those two replica sets, the canary one on exactly the canary paths; (R2) in every strategy planner the stored NewStatus.Ready/Available/Current are per-node counters of one loop that are incremented only under IsPodReady(pod) / IsPodAvailable(pod) / a test that holds only when the pod's template-hash annotation equals a hash (inline, or a repository predicate every true path of which carries that equality, followed through nested predicates) of one pod of the iteration; where NewStatus.Desired is a counter (active and canary roles) it grows by exactly one per iteration and every feasible iteration path satisfies 0 <= dAvailable <= dReady <= dCurrent <= dDesired, using the lemma IsPodAvailable => IsPodReady (itself checked) to prune infeasible paths; every return of a planner whose error result is not known non-nil is dominated by the stores of those four counters (stale counters only accompany an error); (R3) decision tables: the condition-maintenance function sets Canary-Failed True iff failed and Canary-Paused True iff paused and not failed; the state function stores State 'Canary Failed' iff failed, otherwise during an active canary 'Canary Paused' iff paused else 'Canary', otherwise the non-canary state of the annotations; Status.Canary is cleared unless the canary is active; the active flag is true only without failure and with different active/up-to-date names; the condition updater gives an existing condition the status it is handed unless equal, and refreshes Reason and Message from its arguments on every path where that status is True, also when the status did not change.", runC14)
+	register("C14", "Decides: (R1) in the ExtendedDaemonSet reconciler the accumulator fields Ready/Current/Available are each written by exactly one `acc.X += item.Status.X` that executes for every item of the listed replica sets (before any filtering); Status.Current/Ready/Available are stored only from the like-named accumulator field; Status.Desired is stored only as <rs>.Status.Desired of the replica set whose name is stored to Status.ActiveReplicaSet, or incremented by <rs>.Status.Desired of the replica set whose name is stored to Status.Canary.ReplicaSet, on exactly the paths that store that name and after the base store; Status.UpToDate is stored only as <rs>.Status.Current of one of those two replica sets, the canary one on exactly the canary paths; (R2) in every strategy planner the stored NewStatus.Ready/Available/Current are per-node counters of one loop that are incremented only under IsPodReady(pod) / IsPodAvailable(pod) / a test that holds only when the pod's template-hash annotation equals a hash (inline, or a repository predicate every true path of which carries that equality, followed through nested predicates) of one pod of the iteration; where NewStatus.Desired is a counter (active and canary roles) it grows by exactly one per iteration and every feasible iteration path satisfies 0 <= dAvailable <= dReady <= dCurrent <= dDesired, using the lemma IsPodAvailable => IsPodReady (itself checked) to prune infeasible paths; a pod counted as current that is known Ready / available on the path is also counted in Ready / Available, and these counters are not constants when Current is counted; every return of a planner whose error result is not known non-nil is dominated by the stores of those four counters (stale counters only accompany an error); (R3) decision tables: the condition-maintenance function sets Canary-Failed True iff failed and Canary-Paused True iff paused and not failed; the state function stores State 'Canary Failed' iff failed, otherwise during an active canary 'Canary Paused' iff paused else 'Canary', otherwise the non-canary state of the annotations; Status.Canary is cleared unless the canary is active; the active flag is true only without failure and with different active/up-to-date names; the condition updater gives an existing condition the status it is handed unless equal, and refreshes Reason and Message from its arguments on every path where that status is True, also when the status did not change; where the replica-set reconciler calls the rolling-update planner (active role), every replica-set condition that IsCanaryDeploymentPaused / IsCanaryDeploymentFailed read has been set to False on every path.", runC14)
 }
 
 const fnEDSCondUpdate = pkgEDSCond + ".UpdateExtendedDaemonSetStatusCondition"
@@ -636,6 +636,8 @@ func c14Planners(r *Run) {
 		guardN := map[string]int{}
 		chainOK, chainDetail := true, ""
 		desOK, desDetail := true, ""
+		complOK := map[string]bool{"Ready": true, "Available": true}
+		complDetail := map[string]string{}
 		feasible := 0
 		for _, p := range paths {
 			// facts about pods of this iteration, keyed by callee
@@ -722,6 +724,24 @@ func c14Planners(r *Run) {
 				chainOK = false
 				chainDetail = "the counters of one iteration are guarded by tests on different pods on path [" + shortFacts(p) + "]"
 			}
+			// completeness: a pod counted as current that is known Ready / available is counted as such
+			if d["Current"] >= 1 {
+				for _, F := range []string{"Ready", "Available"} {
+					if _, isCtr := phis[F]; !isCtr {
+						continue
+					}
+					known := false
+					for _, pol := range subj[guards[F].callee] {
+						if pol {
+							known = true
+						}
+					}
+					if known && d[F] < 1 {
+						complOK[F] = false
+						complDetail[F] = "a current pod with " + shortName(guards[F].callee) + "(pod)==true is not counted on path [" + shortFacts(p) + "]"
+					}
+				}
+			}
 			if _, isCtr := phis["Desired"]; isCtr {
 				if d["Desired"] != 1 {
 					desOK = false
@@ -745,6 +765,19 @@ func c14Planners(r *Run) {
 				det = fmt.Sprintf("%d incrementing path(s) of %d feasible", guardN[F], feasible)
 			}
 			r.Check("C14.R2", "NewStatus."+F+" guard", lpos, shortFunc(fn), "NewStatus."+F+" counts a node only under "+shortName(g.callee)+"(pod)", guardOK[F] && guardN[F] > 0, det)
+		}
+		// completeness of Ready / Available relative to Current
+		if _, curIsCtr := phis["Current"]; curIsCtr {
+			for _, F := range []string{"Ready", "Available"} {
+				g := guards[F]
+				_, isCtr := phis[F]
+				det := complDetail[F]
+				if !isCtr {
+					det = fmt.Sprintf("NewStatus.%s is the constant %d although current pods are counted: %s pods are never reported", F, consts[F], strings.ToLower(F))
+				}
+				r.Check("C14.R2", "NewStatus."+F+" complete", lpos, shortFunc(fn),
+					"every pod counted as current for which "+shortName(g.callee)+"(pod) is known to hold is counted in NewStatus."+F+" (and the counter is not a constant)", isCtr && complOK[F], det)
+			}
 		}
 		if _, isCtr := phis["Desired"]; isCtr {
 			r.Check("C14.R2", "NewStatus.Desired per node", lpos, shortFunc(fn), "NewStatus.Desired grows by exactly one per targeted node", desOK, desDetail)
@@ -1009,6 +1042,128 @@ func c14CondUpdater(r *Run, reach map[*ssa.Function]bool) {
 		detail = "not updated on path " + bad
 	}
 	r.Check("C14.R3", "updater sets Status", pos, shortFunc(fn), "an existing condition gets the given status unless it already has it", ok && n > 0, detail)
+}
+
+// c14ActiveRoleResets (R3): the ExtendedDaemonSet reconciler derives its Canary-Paused / Canary-Failed
+// conditions and state from conditions it reads on the up-to-date replica set (through
+// IsCanaryDeploymentPaused / IsCanaryDeploymentFailed), also when that replica set is the active one and
+// no canary is running. So a replica set that syncs in the active role must reset every such condition to
+// False before it plans the rolling update - otherwise a pause/failure recorded while it was the canary
+// is reported for ever after its promotion.
+func c14ActiveRoleResets(r *Run) {
+	rec := r.Prog.Method(pkgERS, "Reconciler", "Reconcile")
+	planner := r.Prog.Func(pkgStrategy, "ManageDeployment")
+	if rec == nil || planner == nil {
+		r.Fatal("anchors for the active-role reset not found")
+		return
+	}
+	reach := r.Prog.reachableFuncs(rec)
+	// condition types read by the canary predicates
+	read := map[string]string{}
+	for _, name := range []string{"IsCanaryDeploymentPaused", "IsCanaryDeploymentFailed"} {
+		pred := r.Prog.Func(pkgEDS, name)
+		if pred == nil {
+			r.Fatal("anchor %s.%s not found", pkgEDS, name)
+			return
+		}
+		for _, fn := range sortedFuncs(r.Prog.reachableFuncs(pred)) {
+			for _, ci := range callsIn(fn) {
+				c := ci.Common()
+				cal := staticCallee(c)
+				if cal == nil || cal.Pkg == nil || cal.Pkg.Pkg.Path() != pkgERSCond || len(c.Args) < 2 {
+					continue
+				}
+				if s, ok := constString(c.Args[1]); ok {
+					read[s] = name
+				}
+			}
+		}
+	}
+	var types []string
+	for t := range read {
+		types = append(types, t)
+	}
+	sort.Strings(types)
+	sites := callSitesOf(planner, reach)
+	if len(types) == 0 || len(sites) == 0 {
+		r.Check("C14.R3", "active role resets canary conditions", r.Prog.Pos(planner.Pos()), shortFunc(planner),
+			"the canary predicates read replica-set conditions and the rolling-update planner is called from the replica-set reconciler", false,
+			fmt.Sprintf("%d condition types read, %d call sites of the planner", len(types), len(sites)))
+		return
+	}
+	for _, cs := range sites {
+		f := cs.Parent()
+		var paramsRoot ssa.Value
+		for _, a := range cs.Common().Args {
+			if isPtrToNamed(a.Type(), pkgStrategy, "Parameters") {
+				paramsRoot, _ = accessPath(a)
+			}
+		}
+		for _, t := range types {
+			t := t
+			// a reset: the updater called with (status, _, t, False, …), directly or inside a repository
+			// helper / local closure every path of which does it; the helper's parameters stand for the
+			// call's arguments (type and status may be passed in) and captured variables for the cells
+			// they are bound to
+			type env map[*ssa.Parameter]ssa.Value
+			var resolve func(v ssa.Value, e env, d int) ssa.Value
+			resolve = func(v ssa.Value, e env, d int) ssa.Value {
+				for i := 0; i < 6 && v != nil; i++ {
+					switch x := v.(type) {
+					case *ssa.Parameter:
+						if nv, ok := e[x]; ok {
+							v = nv
+							continue
+						}
+					case *ssa.FreeVar:
+						if bnd := closureBinding(x); bnd != nil {
+							v = bnd
+							continue
+						}
+					}
+					break
+				}
+				return v
+			}
+			var resetIn func(in ssa.Instruction, e env, depth int) bool
+			resetIn = func(in ssa.Instruction, e env, depth int) bool {
+				c, ok := in.(*ssa.Call)
+				if !ok {
+					return false
+				}
+				if calleeName(&c.Call) == fnERSCondUpdate && len(c.Call.Args) == 8 {
+					ty, okT := constString(resolve(c.Call.Args[2], e, 0))
+					st, okS := constString(resolve(c.Call.Args[3], e, 0))
+					if !okT || !okS || ty != t || st != "False" {
+						return false
+					}
+					root, _ := accessPath(c.Call.Args[0])
+					root = resolve(root, e, 0)
+					if rr, _ := accessPath(root); rr != nil {
+						root = rr
+					}
+					return paramsRoot == nil || root == paramsRoot
+				}
+				cal := staticCallee(&c.Call)
+				if cal == nil || cal == planner || depth > 2 || len(cal.Blocks) == 0 || !r.Prog.IsRuleSite(cal) {
+					return false
+				}
+				sub := env{}
+				for i, a := range c.Call.Args {
+					if i < len(cal.Params) {
+						sub[cal.Params[i]] = resolve(a, e, 0)
+					}
+				}
+				isRet := func(x ssa.Instruction) bool { _, isR := x.(*ssa.Return); return isR }
+				return reachFromEntryAvoiding(cal, isRet, func(x ssa.Instruction) bool { return resetIn(x, sub, depth+1) }) == nil
+			}
+			isReset := func(in ssa.Instruction) bool { return resetIn(in, env{}, 0) }
+			esc := reachFromEntryAvoiding(f, func(in ssa.Instruction) bool { return in == ssa.Instruction(cs) }, isReset)
+			r.Check("C14.R3", "active role resets condition "+t, r.Prog.Pos(cs.Pos()), shortFunc(f),
+				"before planning in the active role, the replica-set condition "+t+" (read by "+read[t]+" for the ExtendedDaemonSet's status) is set to False on the status handed to the planner", esc == nil,
+				map[bool]string{true: "", false: "the rolling-update planner can be reached without resetting the condition: a value recorded while the replica set was the canary survives its promotion"}[esc == nil])
+		}
+	}
 }
 
 func shortName(callee string) string {
@@ -1343,7 +1498,7 @@ func runC14(r *Run) {
 	r.RuleDoc("C14.R2", "planner counters: guards, one per node, chain available <= ready <= current <= desired per iteration")
 	r.RuleDoc("C14.R3", "decision tables of the canary conditions, the state string, Status.Canary and the active flag")
 	r.Floor("C14.R1", 9)
-	r.Floor("C14.R2", 17)
+	r.Floor("C14.R2", 23)
 	r.Floor("C14.R3", 15)
 	r.NotCovered("agreement of the counters with the pods that actually exist (needs a cluster state); staleness of replica-set statuses read by the ExtendedDaemonSet reconciler; the Reason field and the non-canary state strings (C08); consumers of the status (cmd/check-eds, kubectl-eds); the counter chain for replica sets in the 'unknown' role, whose Desired is the constant 0; status when spec.strategy.canary is nil (the state function is not called)")
 
@@ -1355,6 +1510,7 @@ func runC14(r *Run) {
 	c14Planners(r)
 	c14Tables(r, reach)
 	c14CondUpdater(r, reach)
+	c14ActiveRoleResets(r)
 	r.RuleDoc("C14.R4", "status.canary is decided on every path to the status write (no stale canary survives, e.g. after the canary strategy is removed)")
 	r.Floor("C14.R4", 1)
 	c14CanaryAlwaysDecided(r, "C14.R4")
